@@ -102,6 +102,19 @@ m("C01-signal-truncated", PROTO, "    let x = hash_to_field(&signal);\n\n    Ok(
 m("C01-limit-id-swapped-inputs", PROTO, "        (\"userMessageLimit\", vec![rln_witness.user_message_limit]),\n        (\"messageId\", vec![rln_witness.message_id]),", "        (\"userMessageLimit\", vec![rln_witness.message_id]),\n        (\"messageId\", vec![rln_witness.user_message_limit]),", "C01")
 m("C01-output-order", PUB, "        proof.serialize_compressed(&mut output_data)?;\n        output_data.write_all(&serialize_proof_values(&proof_values))?;\n\n        Ok(())\n    }\n\n    /// Generate RLN Proof using a witness calculated from outside zerokit\n    ///\n    /// output_data is  [", "        output_data.write_all(&serialize_proof_values(&proof_values))?;\n        proof.serialize_compressed(&mut output_data)?;\n\n        Ok(())\n    }\n\n    /// Generate RLN Proof using a witness calculated from outside zerokit\n    ///\n    /// output_data is  [", "C01")
 
+FMT = "utils/src/merkle_tree/full_merkle_tree.rs"
+OMT = "utils/src/merkle_tree/optimal_merkle_tree.rs"
+# ---- C07
+m("C07-full-branch-inverted", FMT, "                1 => FullMerkleBranch::Left(self.nodes[index + 1]),\n                0 => FullMerkleBranch::Right(self.nodes[index - 1]),", "                1 => FullMerkleBranch::Right(self.nodes[index + 1]),\n                0 => FullMerkleBranch::Left(self.nodes[index - 1]),", "C07")
+m("C07-full-pathindex-inverted", FMT, "                FullMerkleBranch::Left(_) => 0,\n                FullMerkleBranch::Right(_) => 1,", "                FullMerkleBranch::Left(_) => 1,\n                FullMerkleBranch::Right(_) => 0,", "C07")
+m("C07-optimal-bit-inverted", OMT, "            witness.push((self.get_node(depth, i), (1 - (i & 1)).try_into().unwrap()));", "            witness.push((self.get_node(depth, i), (i & 1).try_into().unwrap()));", "C07")
+m("C07-optimal-root-operands", OMT, "            if w.1 == 0 {\n                acc = H::hash(&[acc, w.0]);\n            } else {\n                acc = H::hash(&[w.0, acc]);", "            if w.1 == 0 {\n                acc = H::hash(&[w.0, acc]);\n            } else {\n                acc = H::hash(&[acc, w.0]);", "C07")
+m("C07-optimal-leaf-index-no-reverse", OMT, "        binary_repr.reverse();\n", "", "C07")
+m("C07-export-order-swapped", PUB, "        output_data.write_all(&vec_fr_to_bytes_le(&path_elements)?)?;\n        output_data.write_all(&vec_u8_to_bytes_le(&identity_path_index)?)?;", "        output_data.write_all(&vec_u8_to_bytes_le(&identity_path_index)?)?;\n        output_data.write_all(&vec_fr_to_bytes_le(&path_elements)?)?;", "C07")
+m("C07-full-verify-always", FMT, "        Ok(proof.compute_root_from(hash) == self.root())", "        Ok(proof.compute_root_from(hash) == self.root() || proof.length() == 0)", "C07")
+m("C07-get-proof-expect", PUB, "        let merkle_proof = self.tree.proof(index)?;", "        let merkle_proof = self.tree.proof(index).expect(\"proof should exist\");", "C07")
+m("C07-optimal-capacity-guard-off", OMT, "    fn proof(&self, index: usize) -> Result<Self::Proof> {\n        if index >= self.capacity() {", "    fn proof(&self, index: usize) -> Result<Self::Proof> {\n        if index > self.capacity() {", "C07")
+
 
 def main():
     os.makedirs(OUT, exist_ok=True)
